@@ -135,6 +135,14 @@ def fresh_run(scs, opts=None, timeout=600, runner="harness.fam:_impl_worker"):
     return pickle.loads(p.stdout)
 
 
+def _with_meta(p, sc):
+    """the scenario as stored in a replay file: with the intent metadata ('_...' keys) its oracle needs, so that
+    `check.py <Cnn> --replay <file>` can judge the re-run on its own"""
+    q = {k: v for k, v in sc.items() if k.startswith("_") and k != "_ws_object"}
+    q.update(p)
+    return q
+
+
 def _predecessor(p, plain, impl_opts, bad):
     """a single earlier connection q such that `q; p` in a fresh interpreter makes bad(trace, extra) true; (q, trace, extra) or None"""
     step = max(1, len(plain) // 40)
@@ -191,7 +199,7 @@ def _again(rep, model, name, scenarios, plain, impl, mod, oracle, project, known
         complaints = oracle(scenarios[i], cit, extra3)
         if complaints and not (known and known(scenarios[i], complaints[0])):
             n_viol += 1
-            rep.violation("after an earlier connection of the same process: " + complaints[0], scenario=jsonable_sc(pq), expected=scenarios[i].get("_expect"),
+            rep.violation("after an earlier connection of the same process: " + complaints[0], scenario=jsonable_sc(_with_meta(pq, scenarios[i])), expected=scenarios[i].get("_expect"),
                           actual=dict(trace=cit[:400]), family=name)
         elif mod[i] is not None and project(cit) != project(simnet.canon_trace(mod[i])):
             n_dis += 1
@@ -236,7 +244,7 @@ def run_family(rep, model, name, scenarios, oracle, project=None, rule="", known
                 n_viol += 1   # a known finding must not mask a model/implementation disagreement
                 if n_viol <= 2 and "_ws_object" not in p and "steps" in p:
                     pstore, note = _localise(p, sc, oracle, plain, impl_opts)
-            rep.violation(complaints[0] + note, scenario=jsonable_sc(pstore), expected=sc.get("_expect"),
+            rep.violation(complaints[0] + note, scenario=jsonable_sc(_with_meta(pstore, sc)), expected=sc.get("_expect"),
                           actual=dict(trace=cit[:400], extra={k: v for k, v in extra.items() if k != "request"}),
                           family=name, kf=kf)
         if mt is not None:
